@@ -58,6 +58,21 @@ def betas(name: str) -> list[list[float]]:
     return out
 
 
+def reweighted(K):
+    """Same-rank variant of a penalty: S K S with S = diag(1, 2, 1, 2, ...) (S is
+    invertible, so the rank is kept while range and null space change)."""
+    K = np.asarray(K, dtype=np.float64)
+    s = np.array([1.0 + (i % 2) for i in range(K.shape[0])])
+    return K * np.outer(s, s)
+
+
+def rank_one(K):
+    """Penalty e1 e1' of the same dimension (rank 1)."""
+    out = np.zeros_like(np.asarray(K, dtype=np.float64))
+    out[0, 0] = 1.0
+    return out
+
+
 def rank(K) -> int:
     return int(np.linalg.matrix_rank(np.asarray(K, dtype=np.float64)))
 
@@ -111,6 +126,10 @@ def lik_logp(spec: dict, theta: dict, o: float) -> float:
     if spec["lik"] == "none":
         return 0.0
     y = np.asarray(y_of(spec), dtype=np.float64)
+    if spec["lik"] == "diamond":
+        # sigma = sd * (1 + z^2 / 4) is shared by the scale and by the mean
+        sig = theta["sd"] * (1.0 + 0.25 * o * o)
+        return float(np.sum(_lognorm(y, theta["icpt"] + theta["slope"] * o * sig, sig)))
     if spec["lik"] == "resid":
         # the variable enters through the VALUE of a weak variable with a distribution:
         # r = y - slope * z,  r ~ N(icpt, sd)
